@@ -163,6 +163,7 @@ type Cluster struct {
 	Loc       *RecLocation
 	Store     *ophar.ShadowStore
 	workers   []*Worker
+	acked     map[[2]uint64]map[string]bool // (job incarnation, checkpoint id) -> nodes whose acknowledgement the job accepted
 	byOp      map[string]*Worker
 	bySR      map[string]*Worker
 	stream    []StreamEv
@@ -539,6 +540,34 @@ func (c *Cluster) SRAcks() []SRAck {
 	defer c.mu.Unlock()
 	return append([]SRAck{}, c.srAcks...)
 }
+func (c *Cluster) ackReturned(id uint64, node string, err error) {
+	if err != nil {
+		return
+	}
+	c.mu.Lock()
+	defer c.mu.Unlock()
+	k := [2]uint64{uint64(c.jobGen), id}
+	if c.acked == nil {
+		c.acked = map[[2]uint64]map[string]bool{}
+	}
+	if c.acked[k] == nil {
+		c.acked[k] = map[string]bool{}
+	}
+	c.acked[k][node] = true
+}
+
+// AcksAccepted returns the nodes whose acknowledgement of checkpoint id the current job incarnation has accepted
+// (the call into the job returned without error).
+func (c *Cluster) AcksAccepted(id uint64) map[string]bool {
+	c.mu.Lock()
+	defer c.mu.Unlock()
+	out := map[string]bool{}
+	for n := range c.acked[[2]uint64{uint64(c.jobGen), id}] {
+		out[n] = true
+	}
+	return out
+}
+
 func (c *Cluster) OpAcks() []OpAck {
 	c.mu.Lock()
 	defer c.mu.Unlock()
@@ -661,7 +690,9 @@ func (a jobAd) OperatorCheckpointComplete(ctx context.Context, r *snapshotpb.Ope
 	if a.dead() {
 		return errors.New("verif: dead node")
 	}
-	return a.c.job().HandleOperatorCheckpointComplete(ctx, r)
+	err := a.c.job().HandleOperatorCheckpointComplete(ctx, r)
+	a.c.ackReturned(r.CheckpointId, r.OperatorId, err)
+	return err
 }
 func (a jobAd) OnSourceRunnerCheckpointComplete(ctx context.Context, r *jobpb.SourceRunnerCheckpointCompleteRequest) error {
 	pos, _ := DecodeSplitStates(r.SplitStates)
@@ -676,7 +707,9 @@ func (a jobAd) OnSourceRunnerCheckpointComplete(ctx context.Context, r *jobpb.So
 	if a.dead() {
 		return errors.New("verif: dead node")
 	}
-	return a.c.job().HandleSourceRunnerCheckpointComplete(ctx, r)
+	err := a.c.job().HandleSourceRunnerCheckpointComplete(ctx, r)
+	a.c.ackReturned(r.CheckpointId, r.SourceRunnerId, err)
+	return err
 }
 func (a jobAd) NotifySplitsFinished(ctx context.Context, id string, s []string) error {
 	return a.c.job().HandleNotifySplitsFinished(id, s)
